@@ -233,7 +233,9 @@ def materialise(x):
     return x
 
 
-def eval_case(kind, op, shape_name, opt, fid):
+def execute(kind, op, shape_name, opt, fid):
+    """Run one injected-fault call.  -> dict(expect, outcome in returned|rejected|other, exc (class name), desc, side (messages
+    about side effects))"""
     shape = SHAPES[shape_name]
     n = len(shape)
     for (f, expect, mut) in faults(kind, op, shape):
@@ -262,7 +264,6 @@ def eval_case(kind, op, shape_name, opt, fid):
     struct0 = (shape_of(targ), {k: shape_of(v) for k, v in kw.items()})
     call_kw = {k: materialise(v) for k, v in kw.items()}
     fn = getattr(model, "rate" if op.startswith("rate") else op)
-    msgs = []
     try:
         with core.watchdog():
             res = fn(materialise(targ), **call_kw)
@@ -274,27 +275,37 @@ def eval_case(kind, op, shape_name, opt, fid):
         outcome = "other"
         res = e
     desc = f"{kind}.{op.split('+')[0]}({shape_name}; {fid}{'; tau, limit_sigma given' if opt == 'opts' else ''})"
-    if expect == "accept":
-        if outcome != "returned":
-            msgs.append(f"well-formed call {desc} raised {type(res).__name__}: {res}")
-        return msgs
-    if outcome == "other":
-        msgs.append(f"malformed call {desc} raised {type(res).__name__} (neither TypeError nor ValueError): {res}")
-    elif outcome == "returned":
-        if expect == "reject":
-            msgs.append(f"malformed call {desc} returned normally: {str(res)[:120]}")
-        else:
-            return msgs  # a number type the library chose to support: fine
-    # no side effect
+    side = []
     for o, d0 in snaps:
         if o.__dict__ != d0:
             ch = {k: (d0.get(k), o.__dict__.get(k)) for k in set(d0) | set(o.__dict__) if d0.get(k) != o.__dict__.get(k)}
-            msgs.append(f"rejected call {desc} modified rating {d0.get('name')!r}: {ch}")
+            side.append(f"modified rating {d0.get('name')!r}: {ch}")
             break
     if e2.snap_model(model) != msnap:
-        msgs.append(f"rejected call {desc} modified the model: {e2.diff_snap(msnap, e2.snap_model(model))}")
+        side.append(f"modified the model: {e2.diff_snap(msnap, e2.snap_model(model))}")
     if (shape_of(targ), {k: shape_of(v) for k, v in kw.items()}) != struct0:
-        msgs.append(f"rejected call {desc} modified its argument containers")
+        side.append("modified its argument containers")
+    return {"expect": expect, "outcome": outcome, "exc": type(res).__name__ if outcome != "returned" else None,
+            "res": str(res)[:160], "desc": desc, "side": side}
+
+
+def eval_case(kind, op, shape_name, opt, fid):
+    x = execute(kind, op, shape_name, opt, fid)
+    expect, outcome, desc = x["expect"], x["outcome"], x["desc"]
+    msgs = []
+    if expect == "accept":
+        if outcome != "returned":
+            msgs.append(f"well-formed call {desc} raised {x['exc']}: {x['res']}")
+        return msgs
+    if outcome == "other":
+        msgs.append(f"malformed call {desc} raised {x['exc']} (neither TypeError nor ValueError): {x['res']}")
+    elif outcome == "returned":
+        if expect == "reject":
+            msgs.append(f"malformed call {desc} returned normally: {x['res'][:120]}")
+        else:
+            return msgs  # a number type the library chose to support: fine
+    for sd in x["side"]:
+        msgs.append(f"rejected call {desc} {sd}")
     return msgs
 
 
